@@ -1,7 +1,7 @@
-package badger
+package pathbadger
 
 // C06: finalized versions stay fully readable until pruned, on the real
-// Badger-backed (hashed) node database code over the Badger model.
+// Badger-backed (path-keyed (pathbadger) node database code over the Badger model.
 //
 // History: version 1 = k symbolic entries committed and finalized (optionally
 // with a second, non-finalized root at the same version, which finalisation
@@ -72,7 +72,7 @@ func c06CheckRoot(ctx context.Context, db api.NodeDB, root node.Root, want []c06
 	symx.Assert(it.Err() == nil && n == len(want), label+": iteration over a retained finalized version does not yield its keys")
 }
 
-func VerifC06Versions() {
+func VerifC06VersionsPath() {
 	ctx := context.Background()
 	var ns common.Namespace
 	k := symx.Cfg("k", 2)
@@ -165,11 +165,11 @@ func VerifC06Versions() {
 	symx.Cover("end")
 }
 
-// VerifC13Served (C13 on the real back end): for two consecutive finalized roots the write log the
+// VerifC13ServedPath (C13 on the real back end): for two consecutive finalized roots the write log the
 // database serves for the pair (GetWriteLog), applied to a tree at the first root, gives exactly the
 // second root. Version 2 is a symbolic batch on version 1, written by the tree that committed version 1
 // or, with reopen, by a tree reopened at the first root; key lengths per cfg (digits of klens / oplens).
-func VerifC13Served() {
+func VerifC13ServedPath() {
 	ctx := context.Background()
 	var ns common.Namespace
 	k := symx.Cfg("k", 2)
